@@ -47,6 +47,9 @@ func runC05(c *Ctx, r *Report) {
 	c05PoolTypestate(c, r, "C05-d")
 	c05StagePurity(c, r, "C05-d")
 	c05MatcherPerWorker(c, r)
+	// (f) a match is counted before it is published: the counters are advanced only inside the
+	// classifying function, which returns before the worker sends the match to the aggregation loop
+	borrow(c, r, c01Counters, "C01-a", "C05-f", nil, true)
 }
 
 // ---------------------------------------------------------------- (a) atomics
